@@ -55,7 +55,12 @@ func execOp(s *exec.State, ev abs.V) {
 	switch ev["op"] {
 	case "reset":
 		s.Reset()
+	case "scribble":
+		s.Scribble(h)
 	case "build":
+		if sc, ok := ev["scribbled"].(bool); ok && sc {
+			break // emitted by Scribble itself
+		}
 		if r, ok := ev["rebuild"].(bool); ok && r {
 			s.Rebuild(h, ev["v"])
 		} else {
